@@ -5,7 +5,8 @@ import ast
 
 from ..program import (AnalysisError, Func, call_name, const_str, dotted,
                        kwarg, norm_key, unparse, walk_no_nested)
-from ..util import (assigns_to_self_attr, nodes_with_call, signal_sends,
+from ..util import (assigns_to_self_attr, is_self_attr, nodes_with_call,
+                    signal_sends,
                     compare_consts)
 
 EXPLANATION = (
@@ -27,7 +28,9 @@ EXPLANATION = (
     'R-C17.5 also rejects labels aggregated over several batch entries (comprehension-bound task_info); '
     'R-C17.6 nothing state-changing is reachable from evolve() before evolving.send(); R-C17.7 a generator-produced value is iterated at most once in run_sql unless materialised.'
     ' '
-    'R-C17.8 (= R-C07.9) no finally block is left through return/break/continue.')
+    'R-C17.8 (= R-C07.9) no finally block is left through return/break/continue.'
+    ' '
+    'R-C17.9 = R-C07.10; R-C17.10 evolver.project_sig is always the object the saved Version holds (or _save_project_sig stores it into the version).')
 NOT_DECIDED = (
     'That the payload (evolutions, migrations, model names) equals exactly '
     'what was executed between the paired signals for every run.')
@@ -678,7 +681,69 @@ def r8_finally_does_not_swallow(ctx):
     r9_finally_does_not_swallow(ctx, rule_id='R-C17.8')
 
 
+def r9_exit_never_suppresses(ctx):
+    from .c07 import r10_exit_never_suppresses
+    r10_exit_never_suppresses(ctx, rule_id='R-C17.9')
+
+
+def r10_saved_signature_is_the_evolved_one(ctx, rule_id='R-C17.10'):
+    """Evolver._save_project_sig() re-saves self.version when one exists and
+    never re-assigns version.signature: it relies on evolver.project_sig
+    *being* that Version's signature object.  So either the save routine
+    assigns version.signature = self.project_sig before saving, or every
+    binding of self.project_sig is the Version's own object (a fresh
+    ProjectSignature() that the new Version is then built from, or
+    `<version>.signature` itself - not a copy).  Otherwise the run evolves a
+    copy, saves the old object, and `evolved` is sent although the stored
+    signature knows nothing about what was just done."""
+    ctx.rule(rule_id)
+    p = ctx.program
+    cls = p.cls('evolve.evolver', 'Evolver')
+    save = cls.methods['_save_project_sig']
+    reassigns = any(
+        isinstance(n, ast.Assign) and any(
+            isinstance(t, ast.Attribute) and t.attr == 'signature'
+            for t in n.targets) and
+        'project_sig' in unparse(n.value)
+        for n in walk_no_nested(save.node))
+    n_bind = 0
+    bad = []
+    for f in cls.methods.values():
+        for n in walk_no_nested(f.node):
+            if not isinstance(n, ast.Assign):
+                continue
+            for t in n.targets:
+                if is_self_attr(t, 'project_sig'):
+                    n_bind += 1
+                    v = n.value
+                    fresh = isinstance(v, ast.Call) and \
+                        call_name(v) == 'ProjectSignature' and not v.args
+                    alias = isinstance(v, ast.Attribute) and \
+                        v.attr == 'signature'
+                    none = isinstance(v, ast.Constant) and v.value is None
+                    if not (fresh or alias or none):
+                        bad.append((f, n))
+    ctx.floor('bindings of Evolver.project_sig', n_bind, 2)
+    if reassigns:
+        ctx.ok(save, '_save_project_sig stores evolver.project_sig into the '
+               'version before saving')
+    elif bad:
+        for f, n in bad:
+            ctx.finding(f, n, 'evolver.project_sig is bound to %s, which is '
+                        'not the Version\'s own signature object, while '
+                        '_save_project_sig() re-saves the existing Version '
+                        'without storing project_sig into it: what the run '
+                        'evolves is not what gets saved' %
+                        ' '.join(unparse(n.value).split()),
+                        key='project-sig-not-the-saved-object')
+    else:
+        ctx.ok(cls.methods['__init__'], 'evolver.project_sig is always the '
+               'object the saved Version holds')
+
+
 def run(ctx):
+    r10_saved_signature_is_the_evolved_one(ctx)
+    r9_exit_never_suppresses(ctx)
     r8_finally_does_not_swallow(ctx)
     r7_statement_generator_iterated_once(ctx)
     r6_nothing_changes_before_evolving(ctx)
